@@ -55,6 +55,7 @@ type AnsSpec struct {
 	TokenType string `json:"tt"` // default Bearer
 	AudArray  bool   `json:"audArray"`
 	Extra     bool   `json:"extra"`     // extra members in the body
+	Big       bool   `json:"big"`       // a large (but compliant) answer: ID token with hundreds of groups, a 12 KB extra member
 	IDLife    int    `json:"idLife"`    // seconds, default 60
 	RfNonce   string `json:"rfNonce"`   // refresh: same (default) | absent | foreign
 	KeySet    string `json:"keySet"`    // "" | "k3": switch the configured key set before answering
